@@ -140,6 +140,7 @@ def run(repo, rep):
         rep.holds('R-LEAVES', key, w, 'f, a, b in every formula and in the iteration come from the ellipsoid parameter')
     # bound and threshold
     key = 'R-BOUND::geodepy/geodesy.py::vincdir::iteration'
+    V.module_consts(f.module)
     cap = V.loop_cap(L.node)
     thr = V.loop_break_threshold(L.node)
     if cap is None:
